@@ -139,6 +139,13 @@ func apply(c joinCase, p pert) (joinCase, bool) {
 	return d, true
 }
 
+func encOrNil(f *ref.Frame) []byte {
+	if f == nil {
+		return nil
+	}
+	return f.Encode()
+}
+
 func indexOf(t byte) int {
 	for i, v := range []byte{0xff, 0, 1, 2} {
 		if v == t {
@@ -234,6 +241,27 @@ func checkCase(c joinCase) evid.Outcome {
 		if err != nil || !bytes.Equal(air, append([]byte{f.MHDR()}, wantCT...)) {
 			return evid.Fail("encrypted join-accept serialises to %x (err %v), want MHDR|%x", air, err, wantCT)
 		}
+		// decrypting a shallow copy of the encrypted frame (e.g. to check it before sending) must leave the frame as it is
+		chk := p
+		if err := chk.DecryptJoinAcceptPayload(gen.LibKey(ek)); err != nil {
+			return evid.Fail("DecryptJoinAcceptPayload of the frame just encrypted: %v", err)
+		}
+		if again, err := p.MarshalBinary(); err != nil || !bytes.Equal(again, air) {
+			return evid.Fail("after decrypting a copy of the encrypted join-accept, the encrypted frame serialises to %x (err %v) instead of %x: decrypting wrote into the ciphertext", again, err, air)
+		}
+		// any MIC field value is encrypted the same way (the MIC is just the last four bytes of the block input)
+		for _, mic := range [][4]byte{{}, {0, 0, 0, 1}, {0xff, 0xff, 0xff, 0xff}, {want[3], want[2], want[1], want[0]}} {
+			r, _ := gen.ToLib(&c.F, true)
+			r.MIC = lorawan.MIC(mic)
+			if err := r.EncryptJoinAcceptPayload(gen.LibKey(ek)); err != nil {
+				return evid.Fail("EncryptJoinAcceptPayload with MIC field %x: %v", mic[:], err)
+			}
+			rb, err := r.MarshalBinary()
+			exp := append([]byte{f.MHDR()}, ref.JoinAcceptEncrypt(ek, append(f.MACPayloadBytes(), mic[:]...))...)
+			if err != nil || !bytes.Equal(rb, exp) {
+				return evid.Fail("join-accept with MIC field %x encrypts to %x (err %v), specification gives %x", mic[:], rb, err, exp)
+			}
+		}
 		var q lorawan.PHYPayload
 		if err := q.UnmarshalBinary(air); err != nil {
 			return evid.Fail("UnmarshalBinary of the encrypted join-accept: %v", err)
@@ -247,6 +275,22 @@ func checkCase(c joinCase) evid.Outcome {
 		}
 		if !bytes.Equal(g.Encode(), f.Encode()) {
 			return evid.Fail("DecryptJoinAcceptPayload gives payload|MIC %x, original %x", g.Encode(), f.Encode())
+		}
+		// decrypting the same received ciphertext object twice gives the same result
+		q2 := lorawan.PHYPayload{MHDR: q.MHDR, MACPayload: &lorawan.DataPayload{Bytes: append(make([]byte, 0, len(wantCT)+8), wantCT[:len(wantCT)-4]...)}}
+		copy(q2.MIC[:], wantCT[len(wantCT)-4:])
+		q3 := q2
+		if err := q3.DecryptJoinAcceptPayload(gen.LibKey(ek)); err != nil {
+			return evid.Fail("DecryptJoinAcceptPayload (payload bytes with spare capacity): %v", err)
+		}
+		q4 := q2
+		if err := q4.DecryptJoinAcceptPayload(gen.LibKey(ek)); err != nil {
+			return evid.Fail("second DecryptJoinAcceptPayload of the same ciphertext: %v", err)
+		}
+		g3, e3 := gen.FromLib(&q3)
+		g4, e4 := gen.FromLib(&q4)
+		if e3 != nil || e4 != nil || !bytes.Equal(g3.Encode(), f.Encode()) || !bytes.Equal(g4.Encode(), f.Encode()) {
+			return evid.Fail("decrypting the same received join-accept ciphertext twice gives %x then %x, original payload|MIC %x", encOrNil(g3), encOrNil(g4), f.Encode())
 		}
 		if ok, err := q.ValidateDownlinkJoinMIC(lorawan.JoinType(c.ReqType), gen.EUI(c.JoinEUI), lorawan.DevNonce(c.DevNonce), gen.LibKey(toKey(c.Key))); err != nil || !ok {
 			return evid.Fail("MIC of the decrypted join-accept does not validate (ok=%v err=%v)", ok, err)
@@ -264,6 +308,6 @@ func TestProp(t *testing.T) {
 	r := evid.Begin(t, "C04")
 	defer r.Finish()
 	evid.Rapid(r, t, "join-mic-and-encryption",
-		"rapid: join-requests, rejoin-requests type 0/1/2 and join-accepts (random 8-byte EUIs, boundary-biased nonces < 2^24, NetID, DevAddr, DLSettings with OptNeg both ways, RXDelay 0..15, CFList absent/channels/masks) x random keys x JoinReqType in {0xff,0,1,2} x JoinEUI x DevNonce. Oracle: own AES-CMAC over the wire model (1.0 form, or the 1.1 form prefixing JoinReqType|JoinEUI LE|DevNonce LE when OptNeg), AES-decrypt-ECB over payload|MIC from crypto/aes. Checks: Set == reference; Validate accepts exactly it; 3-8 single-input perturbations (key bit, JoinReqType, JoinEUI bit, DevNonce bit, any frame field, Major) where validation must answer exactly whether the reference MIC is unchanged (so the OptNeg inputs matter only with OptNeg); ciphertext byte-identical for the 16- and 32-byte forms; device-side AES-encrypt recovers payload|MIC; decode+decrypt restores payload and MIC. Non-trivial: join/rejoin request, or join-accept with OptNeg or CFList.",
+		"rapid: join-requests, rejoin-requests type 0/1/2 and join-accepts (random 8-byte EUIs, boundary-biased nonces < 2^24, NetID, DevAddr, DLSettings with OptNeg both ways, RXDelay 0..15, CFList absent/channels/masks) x random keys x JoinReqType in {0xff,0,1,2} x JoinEUI x DevNonce. Oracle: own AES-CMAC over the wire model (1.0 form, or the 1.1 form prefixing JoinReqType|JoinEUI LE|DevNonce LE when OptNeg), AES-decrypt-ECB over payload|MIC from crypto/aes. Checks: Set == reference; Validate accepts exactly it; 3-8 single-input perturbations (key bit, JoinReqType, JoinEUI bit, DevNonce bit, any frame field, Major) where validation must answer exactly whether the reference MIC is unchanged (so the OptNeg inputs matter only with OptNeg); ciphertext byte-identical for the 16- and 32-byte forms; device-side AES-encrypt recovers payload|MIC; decode+decrypt restores payload and MIC; decrypting a copy leaves the encrypted frame intact and decrypting the same ciphertext twice gives the same result; arbitrary MIC field values (0, 1, all ones) encrypt per specification. Non-trivial: join/rejoin request, or join-accept with OptNeg or CFList.",
 		50000, 3000000, genCase, checkCase)
 }
